@@ -28,10 +28,15 @@ For every method (or StaticURLInfo method) that calls `<self|config>.introspecta
 Also: the category headings of docs/narr/introspector.rst (`docCategories`, with a parse status), so that the agreement
 between the documented and the recorded category names is re-decided on every run.
 
-Also: whether `Configurator.include` and `Configurator.with_package` pass `introspection=self.introspection` to
-the configurator they create, whether `Configurator.action` drops the introspectables when `self.introspection`
-is false, and whether `execute_actions` registers the introspectables after (not before / not instead of) the
-callable, inside the per-action loop.
+Also six facts obtained by *probing the running code* of the tree under test in a child interpreter (`PROBE`; they used
+to be structural reads of the AST, which a behaviour-preserving rewrite of `execute_actions` broke): `include` and
+`with_package` hand the `introspection` flag to the configurator they create; the constructor's default and store;
+`Configurator.action` drops the introspectables when the flag is off (also under autocommit); `execute_actions` calls
+the callable first and then registers the action's introspectables in list order with the action's info, action by
+action, skips overridden actions, stops at a raising callable without registering its introspectables, registers nothing
+without an introspector, and treats actions appended during execution the same; `Introspectable.register` undefers,
+sets the info, adds, then applies the recorded relate/unrelate calls in order.  A probe that cannot run yields
+`probe-failed:…` (the obligation fails).
 """
 import ast, os
 
@@ -539,90 +544,158 @@ def _forwards(func):
     return 'forwards' if v == 'self.introspection' else 'other:' + v
 
 
+PROBE = r"""
+import json, sys, warnings
+warnings.simplefilter('ignore')
+out = {}
+def guard(name, fn):
+    try:
+        out[name] = fn()
+    except Exception as e:
+        out[name] = 'probe-failed:%s:%s' % (type(e).__name__, str(e)[:120])
+
+from pyramid.config import Configurator
+from pyramid.config.actions import ActionState
+from pyramid.exceptions import ConfigurationExecutionError
+from pyramid.registry import Introspectable, Introspector, Deferred
+
+def include_():
+    res = []
+    for flag in (False, True):
+        seen = []
+        def inc(c):
+            seen.append(bool(c.introspection))
+        Configurator(introspection=flag).include(inc)
+        res.append(seen == [flag])
+    return 'forwards' if all(res) else ('absent' if not res[0] and res[1] else 'other')
+guard('include', include_)
+
+def with_package_():
+    import pyramid
+    ok = all(bool(Configurator(introspection=f).with_package(pyramid).introspection) == f for f in (False, True))
+    return 'forwards' if ok else 'absent'
+guard('with_package', with_package_)
+
+def ctor_():
+    a, b, c = Configurator(), Configurator(introspection=False), Configurator(introspection=True)
+    return 'default=%s;%s' % (a.introspection, 'stores' if (b.introspection is False and c.introspection is True) else 'does-not-store')
+guard('ctor', ctor_)
+
+class FakeIntr:
+    def __init__(self, tag, log):
+        self.tag, self.log = tag, log
+    def register(self, introspector, info):
+        self.log.append('register:%s:%s:%s' % (self.tag, info, 'I' if introspector == 'INTROSPECTOR' else '?'))
+
+def action_():
+    res = []
+    for flag in (False, True):
+        cfg = Configurator(introspection=flag)
+        cfg.commit()
+        x = FakeIntr('x', [])
+        cfg.action(None, introspectables=(x,))
+        pend = cfg.action_state.actions[-1]
+        res.append(len(pend.get('introspectables', ())))
+    # autocommit: registered at once iff the flag is on
+    auto = []
+    for flag in (False, True):
+        cfg = Configurator(introspection=flag, autocommit=True)
+        log = []
+        x = FakeIntr('x', log)
+        calls = []
+        cfg.action(None, lambda: calls.append('call'), introspectables=(x,))
+        auto.append((calls, len(log)))
+    ok = res == [0, 1] and auto == [(['call'], 0), (['call'], 1)]
+    return 'drops-when-off' if ok else 'other:%s:%s' % (res, auto)
+guard('action', action_)
+
+def execute_():
+    verdict = []
+    # 1. callable first, then the action's introspectables in list order, with the action's info; action by action
+    log = []
+    st = ActionState()
+    st.action(None, lambda: log.append('call:a'), info='ia', introspectables=(FakeIntr('a1', log), FakeIntr('a2', log)))
+    st.action(1, lambda: log.append('call:b'), info='ib', introspectables=(FakeIntr('b1', log),))
+    st.action(1, lambda: log.append('call:c'), info='ic', includepath=('x',), introspectables=(FakeIntr('c1', log),))   # overridden by b
+    st.action(None, None, info='id', introspectables=(FakeIntr('d1', log),))                                           # no callable
+    st.execute_actions(introspector='INTROSPECTOR')
+    verdict.append('order-ok' if log == ['call:a', 'register:a1:ia:I', 'register:a2:ia:I', 'call:b', 'register:b1:ib:I', 'register:d1:id:I']
+                   else 'order:' + ','.join(log))
+    # 2. a callable that raises: ConfigurationExecutionError, its introspectables and everything after it untouched
+    log = []
+    st = ActionState()
+    def boom():
+        log.append('call:e'); raise ValueError('x')
+    st.action(None, lambda: log.append('call:a'), info='ia', introspectables=(FakeIntr('a1', log),))
+    st.action(None, boom, info='ie', introspectables=(FakeIntr('e1', log),))
+    st.action(None, lambda: log.append('call:f'), info='if', introspectables=(FakeIntr('f1', log),))
+    try:
+        st.execute_actions(introspector='INTROSPECTOR')
+        log.append('no-error')
+    except ConfigurationExecutionError:
+        log.append('CEE')
+    verdict.append('error-ok' if log == ['call:a', 'register:a1:ia:I', 'call:e', 'CEE'] else 'error:' + ','.join(log))
+    # 3. without an introspector nothing is registered
+    log = []
+    st = ActionState()
+    st.action(None, lambda: log.append('call:a'), info='ia', introspectables=(FakeIntr('a1', log),))
+    st.execute_actions()
+    verdict.append('none-ok' if log == ['call:a'] else 'none:' + ','.join(log))
+    # 4. an action appended while executing is executed and registered too (re-entrant loop)
+    log = []
+    st = ActionState()
+    def adder():
+        log.append('call:a')
+        st.action(None, lambda: log.append('call:g'), info='ig', introspectables=(FakeIntr('g1', log),))
+    st.action(None, adder, info='ia', introspectables=(FakeIntr('a1', log),))
+    st.execute_actions(introspector='INTROSPECTOR')
+    verdict.append('reentrant-ok' if log == ['call:a', 'register:a1:ia:I', 'call:g', 'register:g1:ig:I'] else 'reentrant:' + ','.join(log))
+    return ';'.join(verdict)
+guard('execute', execute_)
+
+def register_():
+    class Rec(Introspector):
+        def __init__(self):
+            Introspector.__init__(self); self.log = []
+        def add(self, intr):
+            self.log.append('add(info=%s,undeferred=%s)' % (intr.action_info, not isinstance(intr.discriminator, Deferred)))
+            Introspector.add(self, intr)
+        def relate(self, *pairs):
+            self.log.append('relate%s' % (pairs,)); Introspector.relate(self, *pairs)
+        def unrelate(self, *pairs):
+            self.log.append('unrelate%s' % (pairs,)); Introspector.unrelate(self, *pairs)
+    I = Rec()
+    t1 = Introspectable('c', 't1', 't', 'ty'); t1.register(I, 'i0')
+    t2 = Introspectable('c', 't2', 't', 'ty'); t2.register(I, 'i0')
+    I.log = []
+    x = Introspectable('c', Deferred(lambda: 'x'), 't', 'ty')
+    x.relate('c', 't1'); x.unrelate('c', Deferred(lambda: 't2')); x.relate('c', 't2')
+    x.register(I, 'ix')
+    want = ["add(info=ix,undeferred=True)", "relate(('c', 'x'), ('c', 't1'))", "unrelate(('c', 'x'), ('c', 't2'))", "relate(('c', 'x'), ('c', 't2'))"]
+    return 'undefer,info,add,relations' if I.log == want else 'other:' + ';'.join(I.log)
+guard('register', register_)
+print('C20PROBE ' + json.dumps(out))
+"""
+
+
 def flag_facts(src_root):
-    out = {}
-    init = ast.parse(open(os.path.join(src_root, 'pyramid', 'config', '__init__.py')).read())
-    out['include'] = _forwards(_method(init, 'Configurator', 'include'))
-    out['with_package'] = _forwards(_method(init, 'Configurator', 'with_package'))
-    # Configurator.__init__: introspection=True default, self.introspection = introspection
-    ctor = _method(init, 'Configurator', '__init__')
-    dflt = 'unknown'
-    if ctor is not None:
-        a = ctor.args
-        pos = a.posonlyargs + a.args
-        for arg, d in zip(pos[len(pos) - len(a.defaults):], a.defaults):
-            if arg.arg == 'introspection':
-                dflt = U(d)
-        stores = [U(n) for n in ast.walk(ctor) if isinstance(n, ast.Assign) and U(n.targets[0]) == 'self.introspection']
-        out['ctor'] = 'default=%s;%s' % (dflt, ';'.join(stores))
-    else:
-        out['ctor'] = 'missing'
-    acts = ast.parse(open(os.path.join(src_root, 'pyramid', 'config', 'actions.py')).read())
-    # action(): `if not self.introspection: introspectables = ()` before both uses
-    act = _method(acts, 'ActionConfiguratorMixin', 'action')
-    drop = 'unknown'
-    if act is not None:
-        for i, s in enumerate(act.body):
-            if isinstance(s, ast.If) and U(s.test) == 'not self.introspection' and len(s.body) == 1 and not s.orelse \
-                    and U(s.body[0]) == 'introspectables = ()':
-                later = act.body[i + 1:]
-                uses_before = any('introspectables' in names_in(x) for x in act.body[:i] if not isinstance(x, ast.Expr) or not isinstance(x.value, ast.Constant))
-                if not uses_before and len(later) == 1 and isinstance(later[0], ast.If):
-                    drop = 'drops-when-off'
-        # the non-autocommit branch stores introspectables=introspectables; the autocommit branch registers after the callable
-        txt = U(act)
-        if 'introspectables=introspectables' not in txt:
-            drop = 'unknown'
-    out['action'] = drop
-    # execute_actions: inside the while loop: callable call in try, then `if introspector is not None: for i in introspectables: i.register(introspector, info)`
-    ex = _method(acts, 'ActionState', 'execute_actions')
-    reg = 'unknown'
-    if ex is not None:
-        loops = [n for n in ast.walk(ex) if isinstance(n, ast.While)]
-        if len(loops) == 1:
-            body = loops[0].body
-            kinds = []
-            for s in body:
-                t = U(s)
-                if isinstance(s, ast.Try) and 'callable(*args, **kw)' in t:
-                    kinds.append('call')
-                elif isinstance(s, ast.If) and U(s.test) == 'introspector is not None':
-                    inner = s.body
-                    if len(inner) == 1 and isinstance(inner[0], ast.For) and U(inner[0].iter) == 'introspectables' \
-                            and len(inner[0].body) == 1 and U(inner[0].body[0]) == '%s.register(introspector, info)' % U(inner[0].target) \
-                            and not s.orelse:
-                        kinds.append('register')
-                    else:
-                        kinds.append('register?')
-                elif t == 'executed_actions.append(action)':
-                    kinds.append('log')
-                elif t.startswith("introspectables = action.get('introspectables', ())"):
-                    kinds.append('fetch')
-                elif t == "info = action['info']":
-                    kinds.append('info')
-            reg = ','.join(kinds)
-    out['execute'] = reg
-    # Introspectable.register: add first, then the relations in recorded order
-    regy = ast.parse(open(os.path.join(src_root, 'pyramid', 'registry.py')).read())
-    r = _method(regy, 'Introspectable', 'register')
-    shape = 'unknown'
-    if r is not None:
-        seq = []
-        for s in r.body:
-            t = U(s)
-            if t == 'self.discriminator = undefer(self.discriminator)':
-                seq.append('undefer')
-            elif t == 'self.action_info = action_info':
-                seq.append('info')
-            elif t == 'introspector.add(self)':
-                seq.append('add')
-            elif isinstance(s, ast.For) and U(s.iter) == 'self._relations':
-                seq.append('relations')
-            else:
-                seq.append('?')
-        shape = ','.join(seq)
-    out['register'] = shape
-    return out
+    """the six facts about the `introspection` flag and the registration step, obtained by *running* the code of the tree
+    under test in a child interpreter (a behaviour-preserving rewrite of execute_actions / action / include / register
+    changes nothing here); `probe-failed:…` when the probe itself cannot run (the obligation then fails: closed)"""
+    import json, subprocess, sys
+    env = dict(os.environ)
+    env['PYTHONPATH'] = os.path.abspath(src_root) + os.pathsep + env.get('PYTHONPATH', '')
+    env['PYTHONWARNINGS'] = 'ignore'
+    keys = ('include', 'with_package', 'ctor', 'action', 'execute', 'register')
+    try:
+        p = subprocess.run([sys.executable, '-c', PROBE], env=env, stdout=subprocess.PIPE, stderr=subprocess.PIPE, timeout=120)
+        line = [l for l in p.stdout.decode(errors='replace').splitlines() if l.startswith('C20PROBE ')]
+        if p.returncode != 0 or not line:
+            raise RuntimeError('exit %s: %s' % (p.returncode, p.stderr.decode(errors='replace')[-200:]))
+        got = json.loads(line[-1][len('C20PROBE '):])
+        return {k: str(got.get(k, 'probe-failed:missing')) for k in keys}
+    except Exception as e:
+        return {k: 'probe-failed:%s' % str(e)[:160] for k in keys}
 
 
 def doc_categories(src_root):
@@ -681,17 +754,17 @@ def generate(src_root):
          'def docStatus : String := %s' % lean_str(dstatus),
          'def docCategories : List String := %s' % lean_strs(dnames),
          '',
-         '/-- `self.__class__(…, introspection=…)` in `Configurator.include` -/',
+         '/-- probe: does `Configurator.include` hand `introspection` to the nested configurator -/',
          'def includeFlag : String := %s' % lean_str(ff['include']),
          '/-- the same in `Configurator.with_package` -/',
          'def withPackageFlag : String := %s' % lean_str(ff['with_package']),
-         '/-- `Configurator.__init__`: default of `introspection` and the store -/',
+         '/-- probe: constructor default of `introspection`, and that the argument is stored -/',
          'def ctorFlag : String := %s' % lean_str(ff['ctor']),
-         '/-- `Configurator.action`: `if not self.introspection: introspectables = ()` ahead of both uses -/',
+         '/-- probe: `Configurator.action` keeps the introspectables iff the flag is on (pending action and autocommit) -/',
          'def actionFlag : String := %s' % lean_str(ff['action']),
-         '/-- statement kinds of the `while True` body of `execute_actions`, in order -/',
+         '/-- probe of `ActionState.execute_actions`: callable then registration in order / error aborts / no introspector / re-entrant -/',
          'def executeLoop : String := %s' % lean_str(ff['execute']),
-         '/-- statements of `Introspectable.register`, in order -/',
+         '/-- probe of `Introspectable.register`: undefer, info, add, then the recorded relations in order -/',
          'def registerBody : String := %s' % lean_str(ff['register']),
          '',
          'end Pyr.Gen.C20', '']
